@@ -610,6 +610,8 @@ func c14ListenerWaitsForSibling(rep *vk.Report, idx int) {
 	switch {
 	case blocked.Load() == 0:
 		rep.Count("listener_scenarios_without_listener_call", 1)
+	case took >= 10*time.Second && vk.StalledBetween(t0, t0.Add(took)) >= time.Second:
+		rep.Count("listener_scenarios_not_judged_process_stalled", 1)
 	case took >= 20*time.Second:
 		rep.Violate(idx, prop14("sibling-attempt-blocked-behind-user-listener"), fmt.Sprintf("Hedge(Retry(fn)): the first attempt failed and the retry policy's %s listener was still running (it returns when the execution has returned); the hedged attempt succeeded at once but the call returned (%d,%v) only after %v - the hedged attempt was stuck on a lock the library holds across the listener", which, res, err, took), cs)
 	case took >= 10*time.Second:
